@@ -31,15 +31,15 @@ AnimRenders(loops, cache) == IF cache /\ loops > 1 THEN NFrames ELSE NFrames * l
 
 OpsStill ==
   {[op |-> o, fail |-> f, loops |-> 1, cache |-> FALSE, k |-> 0] :
-      o \in {"render", "str"}, f \in {"no", "exc", "finfail"}}
+      o \in {"render", "str"}, f \in {"no", "exc", "finfail", "kbrender"}}
   \cup {[op |-> "draw_still", fail |-> f, loops |-> 1, cache |-> FALSE, k |-> 0] :
-      f \in {"no", "validation", "exc", "interrupt", "finfail"}}
+      f \in {"no", "validation", "exc", "interrupt", "finfail", "kbrender"}}
 
 OpsAnim ==
   {[op |-> "draw_anim", fail |-> "no", loops |-> l, cache |-> c, k |-> 0] : l \in 1..2, c \in BOOLEAN}
   \cup {[op |-> "draw_anim", fail |-> "validation", loops |-> 1, cache |-> FALSE, k |-> 0]}
   \cup {[op |-> "draw_anim", fail |-> f, loops |-> l, cache |-> c, k |-> k] :
-          f \in {"exc", "stop", "interrupt"}, l \in 1..2, c \in BOOLEAN, k \in 1..4}
+          f \in {"exc", "stop", "interrupt", "kbrender"}, l \in 1..2, c \in BOOLEAN, k \in 1..4}
 
 OpsIter ==
   {[op |-> o, fail |-> "no", loops |-> 1, cache |-> FALSE, k |-> k] :
@@ -47,11 +47,11 @@ OpsIter ==
   \cup {[op |-> o, fail |-> "no", loops |-> 1, cache |-> FALSE, k |-> k] :
       o \in {"iter_close", "iter_drop", "owned_close", "owned_drop"}, k \in 0..2}
   \cup {[op |-> o, fail |-> f, loops |-> 1, cache |-> FALSE, k |-> k] :
-      o \in {"iter_exhaust", "owned_exhaust"}, f \in {"exc", "stop"}, k \in 1..2}
+      o \in {"iter_exhaust", "owned_exhaust"}, f \in {"exc", "stop", "kbrender"}, k \in 1..2}
   \cup {[op |-> "owned_exhaust", fail |-> "no", loops |-> 1, cache |-> FALSE, k |-> 0]}
   \cup {[op |-> "iter_exhaust", fail |-> "finfail", loops |-> 1, cache |-> FALSE, k |-> 0]}
 
-Valid(o) == o.fail \in {"exc", "stop", "interrupt"} /\ o.op = "draw_anim" => o.k <= AnimRenders(o.loops, o.cache)
+Valid(o) == o.fail \in {"exc", "stop", "interrupt", "kbrender"} /\ o.op = "draw_anim" => o.k <= AnimRenders(o.loops, o.cache)
 Ops == {o \in OpsStill \cup OpsAnim \cup OpsIter : Valid(o)}
 
 \* The event program of an operation.  `kept` = the caller keeps ownership of the data.
@@ -64,7 +64,7 @@ Prog(o) ==
     [] o.op = "draw_anim" ->
          IF o.fail = "validation" THEN <<"C", "F", "Q">>
          ELSE IF o.fail = "no" THEN <<"C">> \o Rep("R", AnimRenders(o.loops, o.cache)) \o <<"F", "Q">>
-         ELSE IF o.fail \in {"exc", "stop"} THEN <<"C">> \o Rep("R", o.k) \o <<"F", "Q">>
+         ELSE IF o.fail \in {"exc", "stop", "kbrender"} THEN <<"C">> \o Rep("R", o.k) \o <<"F", "Q">>
          \* Ctrl-C while frame k is being written: frame k+1 was not rendered yet for k = 1
          \* (the first frame is written before the next is rendered); later frames are
          \* rendered one ahead of the write
